@@ -219,6 +219,13 @@ def check_key(ctx, curve, dom, d, named, lzhint=None):
         "pkcs8_v0_no_pub": R.pkcs8(oid, R.ec_private_key(d_bytes, None, None), version=0),
         "pkcs8_v0_with_params": R.pkcs8(oid, R.ec_private_key(d_bytes, oid, pt), version=0),
         "pkcs8_ecdh_alg": R.pkcs8(oid, R.ec_private_key(d_bytes, oid, pt), version=0, alg=R.OID_ECDH),
+        "pkcs8_ecdh_alg_no_inner_params": R.pkcs8(oid, R.ec_private_key(d_bytes, None, pt), version=0, alg=R.OID_ECDH),
+        "pkcs8_ecmqv_alg_no_inner_params": R.pkcs8(oid, R.ec_private_key(d_bytes, None, None), version=0, alg=R.OID_ECMQV),
+        "pkcs8_ecmqv_alg": R.pkcs8(oid, R.ec_private_key(d_bytes, oid, pt), version=1, alg=R.OID_ECMQV),
+        # the embedded public key is somebody else's (a valid point, not d*G): documented as ignored - the loaded key is (d, d*G) all the same
+        "rfc5915_foreign_public_key": R.ec_private_key(d_bytes, oid, sec1.encode_point(dom, ecdsa_ref.pubkey(dom, d % (n - 1) + 1), "uncompressed")),
+        "pkcs8_foreign_public_key": R.pkcs8(oid, R.ec_private_key(d_bytes, None, sec1.encode_point(dom, ecdsa_ref.pubkey(dom, (d + 1) % (n - 1) + 1), "compressed")), version=0),
+        "pkcs8_v1_foreign_public_key": R.pkcs8(oid, R.ec_private_key(d_bytes, None, None), version=1, public_key=sec1.encode_point(dom, ecdsa_ref.pubkey(dom, (d + 5) % (n - 1) + 1), "uncompressed")),
         # RFC 5958 optional fields after privateKey (documented as ignored by from_der)
         "pkcs8_v0_attributes": R.pkcs8(oid, R.ec_private_key(d_bytes, None, pt), version=0,
                                        attributes=R.enc_seq(R.enc_oid((2, 5, 29, 15)), R.enc_tlv(0x31, R.enc_bitstring(b"\x80", 7)))),
